@@ -1,0 +1,127 @@
+//go:build verif
+
+package nfsv4
+
+import (
+	nfsv4_xdr "github.com/buildbarn/go-xdr/pkg/protocols/nfsv4"
+)
+
+// This file is only compiled with the "verif" build tag. It adds
+// read-only inspectors used by the deterministic simulation harness; it
+// does not alter any existing behaviour.
+//
+// None of the functions below acquire locks: the harness calls them at
+// quiescence (every goroutine of the simulated system is parked) and
+// uses VerifLocks() to find out whether a lock is held by a parked
+// goroutine, in which case the counts describe a state in the middle of
+// a critical section.
+
+// VerifLocks returns pointers to the locks that protect the record
+// tables of an NFSv4.0 or NFSv4.1 program.
+func VerifLocks(program nfsv4_xdr.Nfs4Program) []interface{} {
+	switch p := program.(type) {
+	case *nfs40Program:
+		return []interface{}{&p.lock}
+	case *nfs41Program:
+		locks := []interface{}{&p.clientsLock}
+		for _, cis := range p.clientIncarnationsByClientID {
+			locks = append(locks, &cis.lock)
+		}
+		return locks
+	}
+	return nil
+}
+
+// VerifStateCounts returns the number of records of every kind that an
+// NFSv4.0 or NFSv4.1 program currently retains.
+func VerifStateCounts(program nfsv4_xdr.Nfs4Program) map[string]int {
+	c := map[string]int{}
+	switch p := program.(type) {
+	case *nfs40Program:
+		c["clients"] = len(p.clientsByLongID)
+		c["confirmations"] = len(p.clientConfirmationsByKey)
+		c["confirmationsByShortID"] = len(p.clientConfirmationsByShortID)
+		c["openOwnerFiles"] = len(p.openOwnerFilesByOther)
+		c["lockOwnerFiles"] = len(p.lockOwnerFilesByOther)
+		for _, client := range p.clientsByLongID {
+			c["clientConfirmationsByVerifier"] += len(client.confirmationsByClientVerifier)
+			if cc := client.confirmed; cc != nil {
+				c["confirmedClients"]++
+				c["openOwners"] += len(cc.openOwners)
+				c["lockOwners"] += len(cc.lockOwners)
+				for _, oos := range cc.openOwners {
+					c["openOwnerFilesByOwner"] += len(oos.filesByHandle)
+					if oos.currentTransactionWait != nil {
+						c["openOwnerTransactions"]++
+					}
+				}
+				for _, los := range cc.lockOwners {
+					c["lockOwnerFilesByOwner"] += len(los.files)
+				}
+			}
+		}
+		for _, confirmation := range p.clientConfirmationsByKey {
+			if confirmation.holdCount > 0 {
+				c["heldConfirmations"]++
+			}
+		}
+		for i := p.idleClientConfirmations.nextIdle; i != &p.idleClientConfirmations; i = i.nextIdle {
+			c["idleConfirmations"]++
+		}
+		for i := p.unusedOpenOwners.nextUnused; i != &p.unusedOpenOwners; i = i.nextUnused {
+			c["unusedOpenOwners"]++
+		}
+	case *nfs41Program:
+		c["clients"] = len(p.clientsByOwnerID)
+		c["incarnations"] = len(p.clientIncarnationsByClientID)
+		c["sessions"] = len(p.sessionsBySessionID)
+		for _, client := range p.clientsByOwnerID {
+			c["incarnationsByVerifier"] += len(client.incarnationsByClientVerifier)
+			if client.confirmedIncarnation != nil {
+				c["confirmedClients"]++
+			}
+		}
+		for _, cis := range p.clientIncarnationsByClientID {
+			c["openOwners"] += len(cis.openOwnersByOwner)
+			c["openOwnerFiles"] += len(cis.openOwnerFilesByOther)
+			c["lockOwners"] += len(cis.lockOwnersByOwner)
+			c["lockOwnerFiles"] += len(cis.lockOwnerFilesByOther)
+			for _, oos := range cis.openOwnersByOwner {
+				c["openOwnerFilesByOwner"] += len(oos.filesByHandle)
+			}
+			if cis.holdCount > 0 {
+				c["heldIncarnations"]++
+			}
+			for s := cis.sessions.next; s != &cis.sessions; s = s.next {
+				c["sessionsByIncarnation"]++
+			}
+		}
+		for _, session := range p.sessionsBySessionID {
+			for i := range session.slots {
+				if session.slots[i].currentSequenceWaiters != nil {
+					c["busySlots"]++
+					c["slotWaiters"] += len(session.slots[i].currentSequenceWaiters)
+				}
+			}
+		}
+		for i := p.idleClientIncarnations.nextIdle; i != &p.idleClientIncarnations; i = i.nextIdle {
+			c["idleIncarnations"]++
+		}
+	}
+	return c
+}
+
+// VerifCount returns the number of files the pool keeps resolvable and
+// the sum of their use counts.
+func (ofp *OpenedFilesPool) VerifCount() (files, uses int) {
+	for _, of := range ofp.filesByHandle {
+		files++
+		uses += int(of.useCount)
+	}
+	return files, uses
+}
+
+// VerifLock returns a pointer to the pool's lock.
+func (ofp *OpenedFilesPool) VerifLock() interface{} {
+	return &ofp.lock
+}
